@@ -1345,7 +1345,7 @@ impl Prop for C07 {
         let binary_every: u64 = std::env::var("NBSIM_C07_BINARY_EVERY")
             .ok()
             .and_then(|s| s.parse().ok())
-            .unwrap_or(if tier == Tier::Thorough { 400 } else { 2000 });
+            .unwrap_or(if tier == Tier::Thorough { 300 } else { 600 });
         if run % binary_every == 1 {
             let real = w.real_modules(false);
             let mut cfg = Gen::swarm_cfg(&mut rng, true, real);
